@@ -662,7 +662,8 @@ impl<TokenIter: Iterator<Item = Result<Token>>> Parser<TokenIter> {
             let Token { data, location } = self.advance_unwrap(1)?;
             match data {
                 TokenData::Period => {
-                    if encounter_period {
+                    // a dot needs a datum before it, and only one dot is allowed
+                    if encounter_period || matches!(*tail, DatumList::Empty) {
                         return located_error!(
                             SyntaxError::UnexpectedToken(TokenData::Period),
                             *location
@@ -671,7 +672,16 @@ impl<TokenIter: Iterator<Item = Result<Token>>> Parser<TokenIter> {
                     encounter_period = true;
                     continue;
                 }
-                TokenData::RightParen => break,
+                TokenData::RightParen => {
+                    // ... and exactly one datum after it
+                    if encounter_period {
+                        return located_error!(
+                            SyntaxError::UnexpectedToken(TokenData::RightParen),
+                            *location
+                        );
+                    }
+                    break;
+                }
                 _ => {
                     let element = Self::unwrap_non_end(self.current_datum()?)?;
                     match tail {
